@@ -46,6 +46,7 @@ import gen
 PID = "C13"
 SPARSE_DIR = str(Path(core.REPO) / "sparse") + os.sep
 DICT_MSG = "dictionary changed size during iteration"
+DICT_ERR = "RuntimeError: dictionary changed size / keys changed during iteration"
 
 
 # ------------------------------------------------------------------------------------------------
@@ -868,7 +869,8 @@ def leg_dict_model(ctx, rng):
             row = []
             for c, (tag, v) in zip(p, o):
                 if tag != "ok":
-                    row.append(f"{type(v).__name__}: {v}")
+                    # both iterator errors are RuntimeError ('… changed size …': ma_used differs; '… keys changed …': an entry found although none is expected)
+                    row.append(DICT_ERR if (isinstance(v, RuntimeError) and "dictionary" in str(v) and "during iteration" in str(v)) else f"{type(v).__name__}: {v}")
                 elif c[0] == "todense":
                     row.append(("value", v.tolist()))
                 elif c[0] == "asformat":
@@ -902,7 +904,7 @@ def leg_dict_model(ctx, rng):
                 row = []
                 for (op, res), c in zip(th, prog):
                     if res[0] != "ok":
-                        row.append(f"RuntimeError: {DICT_MSG}" if res[1] == "runtime" else f"KeyError ({res[1]})")
+                        row.append(DICT_ERR if res[1] == "runtime" else f"KeyError ({res[1]})")
                     elif c[0] in ("todense", "asformat"):
                         row.append(("value", dense_of(res[1]).tolist()))
                     else:
